@@ -45,6 +45,22 @@ class Stage:
     def kw(self, name: str) -> ValSet:
         return self.params.get(name, frozenset())
 
+    def kw_effective(self, ctx, name: str) -> ValSet:
+        """value of parameter ``name`` as the body sees it: the call-site binding, or - when the callee replaces a
+        ``None`` argument by an option of its object (`if p is None: p = self.p`) - that option"""
+        from .util import assignments_to
+
+        flag = self.kw(name)
+        rebinds = [v for _st, v, _i in assignments_to(self.callee, name)]
+        if rebinds and self.env is not None:
+            vals = set()
+            for v in rebinds:
+                vals |= set(ctx.ev.eval(v, self.env))
+            if flag == frozenset({Val("const", None)}):
+                return frozenset(vals)
+            return frozenset(set(flag) | vals)
+        return flag
+
     def writes(self, key: Val) -> List[RowStore]:
         return [s for s in self.stores if key in s.keys or any(x.kind == "unknown" for x in s.keys) and False]
 
